@@ -309,6 +309,11 @@ func (r *Run) Spawn(name string, f func()) *G {
 			r.mu.Lock()
 			g.state = gDone
 			delete(r.gs, g.goid)
+			// (a run with tens of thousands of short-lived goroutines must not pay for the
+			// finished ones at every scheduling step)
+			if r.byName[g.Name] == g {
+				delete(r.byName, g.Name)
+			}
 			r.live--
 			r.mu.Unlock()
 			if g.tdHeld {
